@@ -203,6 +203,56 @@ fn comp_line_w8(c: &Utf8WindowsComponent) -> String {
     format!("{} r{} n{} p{} c{} v{} l{} {}", hex(&c.as_str().tob()), c.is_root(), c.is_normal(), c.is_parent(), c.is_current(), c.is_valid(), c.len(), c.prefix_kind().map(|k| format!("{:?}", kind_of8(&k))).unwrap_or_default())
 }
 
+/// alternate back / front until exhausted (then two more calls, which must stay `None`)
+fn alt<I: DoubleEndedIterator>(mut it: I) -> Vec<I::Item> {
+    let mut v = Vec::new();
+    let mut back = true;
+    loop {
+        let x = if back { it.next_back() } else { it.next() };
+        back = !back;
+        match x {
+            Some(x) => v.push(x),
+            None => break,
+        }
+    }
+    v
+}
+
+/// bytes of a component of any family
+trait AsRefBytes {
+    fn as_ref_bytes(&self) -> Vec<u8>;
+}
+impl AsRefBytes for UnixComponent<'_> {
+    fn as_ref_bytes(&self) -> Vec<u8> {
+        self.as_bytes().to_vec()
+    }
+}
+impl AsRefBytes for WindowsComponent<'_> {
+    fn as_ref_bytes(&self) -> Vec<u8> {
+        self.as_bytes().to_vec()
+    }
+}
+impl AsRefBytes for Utf8UnixComponent<'_> {
+    fn as_ref_bytes(&self) -> Vec<u8> {
+        self.as_str().as_bytes().to_vec()
+    }
+}
+impl AsRefBytes for Utf8WindowsComponent<'_> {
+    fn as_ref_bytes(&self) -> Vec<u8> {
+        self.as_str().as_bytes().to_vec()
+    }
+}
+impl AsRefBytes for TypedComponent<'_> {
+    fn as_ref_bytes(&self) -> Vec<u8> {
+        self.as_bytes().to_vec()
+    }
+}
+impl AsRefBytes for Utf8TypedComponent<'_> {
+    fn as_ref_bytes(&self) -> Vec<u8> {
+        self.as_str().as_bytes().to_vec()
+    }
+}
+
 /// byte-family transcript of (input, arg) for encoding `win`
 fn t_bytes(win: bool, s: &[u8], a: &[u8]) -> Vec<String> {
     let (s, a) = (s.to_vec(), a.to_vec());
@@ -215,6 +265,9 @@ fn t_bytes(win: bool, s: &[u8], a: &[u8]) -> Vec<String> {
             t.push(format!("components {}", p.components().map(|c| comp_line_w(&c)).collect::<Vec<_>>().join(",")));
             t.push(format!("components-rev {}", p.components().rev().map(|c| comp_line_w(&c)).collect::<Vec<_>>().join(",")));
             t.push(format!("iter {}", p.iter().map(|c| hex(c)).collect::<Vec<_>>().join(",")));
+            t.push(format!("iter-rev {}", p.iter().rev().map(|c| hex(c)).collect::<Vec<_>>().join(",")));
+            t.push(format!("iter-alt {}", alt(p.iter()).into_iter().map(|c| hex(c)).collect::<Vec<_>>().join(",")));
+            t.push(format!("components-alt {}", alt(p.components()).into_iter().map(|c| hex(&c.as_ref_bytes())).collect::<Vec<_>>().join(",")));
             t.push(format!("to-unix {} {:?}", hex(p.with_unix_encoding().as_bytes()), p.with_unix_encoding_checked().map(|x| hex(x.as_bytes()))));
             t.push(format!("to-windows {} {:?}", hex(p.with_windows_encoding().as_bytes()), p.with_windows_encoding_checked().map(|x| hex(x.as_bytes()))));
             let c = p.components();
@@ -226,6 +279,9 @@ fn t_bytes(win: bool, s: &[u8], a: &[u8]) -> Vec<String> {
             t.push(format!("components {}", p.components().map(|c| comp_line_u(&c)).collect::<Vec<_>>().join(",")));
             t.push(format!("components-rev {}", p.components().rev().map(|c| comp_line_u(&c)).collect::<Vec<_>>().join(",")));
             t.push(format!("iter {}", p.iter().map(|c| hex(c)).collect::<Vec<_>>().join(",")));
+            t.push(format!("iter-rev {}", p.iter().rev().map(|c| hex(c)).collect::<Vec<_>>().join(",")));
+            t.push(format!("iter-alt {}", alt(p.iter()).into_iter().map(|c| hex(c)).collect::<Vec<_>>().join(",")));
+            t.push(format!("components-alt {}", alt(p.components()).into_iter().map(|c| hex(&c.as_ref_bytes())).collect::<Vec<_>>().join(",")));
             t.push(format!("to-unix {} {:?}", hex(p.with_unix_encoding().as_bytes()), p.with_unix_encoding_checked().map(|x| hex(x.as_bytes()))));
             t.push(format!("to-windows {} {:?}", hex(p.with_windows_encoding().as_bytes()), p.with_windows_encoding_checked().map(|x| hex(x.as_bytes()))));
         }
@@ -244,6 +300,9 @@ fn t_utf8(win: bool, s: &str, a: &str) -> Vec<String> {
             t.push(format!("components {}", p.components().map(|c| comp_line_w8(&c)).collect::<Vec<_>>().join(",")));
             t.push(format!("components-rev {}", p.components().rev().map(|c| comp_line_w8(&c)).collect::<Vec<_>>().join(",")));
             t.push(format!("iter {}", p.iter().map(|c| hex(&c.tob())).collect::<Vec<_>>().join(",")));
+            t.push(format!("iter-rev {}", p.iter().rev().map(|c| hex(&c.tob())).collect::<Vec<_>>().join(",")));
+            t.push(format!("iter-alt {}", alt(p.iter()).into_iter().map(|c| hex(&c.tob())).collect::<Vec<_>>().join(",")));
+            t.push(format!("components-alt {}", alt(p.components()).into_iter().map(|c| hex(&c.as_ref_bytes())).collect::<Vec<_>>().join(",")));
             t.push(format!("to-unix {} {:?}", hex(&p.with_unix_encoding().tob()), p.with_unix_encoding_checked().map(|x| hex(&x.tob()))));
             t.push(format!("to-windows {} {:?}", hex(&p.with_windows_encoding().tob()), p.with_windows_encoding_checked().map(|x| hex(&x.tob()))));
             let c = p.components();
@@ -255,6 +314,9 @@ fn t_utf8(win: bool, s: &str, a: &str) -> Vec<String> {
             t.push(format!("components {}", p.components().map(|c| comp_line_u8(&c)).collect::<Vec<_>>().join(",")));
             t.push(format!("components-rev {}", p.components().rev().map(|c| comp_line_u8(&c)).collect::<Vec<_>>().join(",")));
             t.push(format!("iter {}", p.iter().map(|c| hex(&c.tob())).collect::<Vec<_>>().join(",")));
+            t.push(format!("iter-rev {}", p.iter().rev().map(|c| hex(&c.tob())).collect::<Vec<_>>().join(",")));
+            t.push(format!("iter-alt {}", alt(p.iter()).into_iter().map(|c| hex(&c.tob())).collect::<Vec<_>>().join(",")));
+            t.push(format!("components-alt {}", alt(p.components()).into_iter().map(|c| hex(&c.as_ref_bytes())).collect::<Vec<_>>().join(",")));
             t.push(format!("to-unix {} {:?}", hex(&p.with_unix_encoding().tob()), p.with_unix_encoding_checked().map(|x| hex(&x.tob()))));
             t.push(format!("to-windows {} {:?}", hex(&p.with_windows_encoding().tob()), p.with_windows_encoding_checked().map(|x| hex(&x.tob()))));
         }
@@ -426,6 +488,9 @@ fn t_typed(win: bool, s: &[u8], a: &[u8]) -> Vec<String> {
                 .join(",")
         ));
         t.push(format!("iter {}", p.iter().map(|c| hex(c)).collect::<Vec<_>>().join(",")));
+            t.push(format!("iter-rev {}", p.iter().rev().map(|c| hex(c)).collect::<Vec<_>>().join(",")));
+            t.push(format!("iter-alt {}", alt(p.iter()).into_iter().map(|c| hex(c)).collect::<Vec<_>>().join(",")));
+            t.push(format!("components-alt {}", alt(p.components()).into_iter().map(|c| hex(&c.as_ref_bytes())).collect::<Vec<_>>().join(",")));
         // explicit conversions are the only operations allowed to change the variant
         let (tu, tuc) = (p.with_unix_encoding(), p.with_unix_encoding_checked());
         t.push(format!("to-unix {}{} {:?}", if tu.is_unix() { "" } else { "!VARIANT" }, hex(tu.as_bytes()), tuc.map(|x| format!("{}{}", if x.is_unix() { "" } else { "!VARIANT" }, hex(x.as_bytes())))));
@@ -474,6 +539,9 @@ fn t_typed8(win: bool, s: &str, a: &str) -> Vec<String> {
                 .join(",")
         ));
         t.push(format!("iter {}", p.iter().map(|c| hex(&c.tob())).collect::<Vec<_>>().join(",")));
+            t.push(format!("iter-rev {}", p.iter().rev().map(|c| hex(&c.tob())).collect::<Vec<_>>().join(",")));
+            t.push(format!("iter-alt {}", alt(p.iter()).into_iter().map(|c| hex(&c.tob())).collect::<Vec<_>>().join(",")));
+            t.push(format!("components-alt {}", alt(p.components()).into_iter().map(|c| hex(&c.as_ref_bytes())).collect::<Vec<_>>().join(",")));
         let (tu, tuc) = (p.with_unix_encoding(), p.with_unix_encoding_checked());
         t.push(format!("to-unix {}{} {:?}", if tu.is_unix() { "" } else { "!VARIANT" }, hex(&tu.tob()), tuc.map(|x| format!("{}{}", if x.is_unix() { "" } else { "!VARIANT" }, hex(&x.tob())))));
         let (tw, twc) = (p.with_windows_encoding(), p.with_windows_encoding_checked());
@@ -497,6 +565,9 @@ fn t_platform(s: &[u8], a: &[u8]) -> Vec<String> {
         t.push(format!("components {}", p.components().map(|c| comp_line_u(&c)).collect::<Vec<_>>().join(",")));
         t.push(format!("components-rev {}", p.components().rev().map(|c| comp_line_u(&c)).collect::<Vec<_>>().join(",")));
         t.push(format!("iter {}", p.iter().map(|c| hex(c)).collect::<Vec<_>>().join(",")));
+            t.push(format!("iter-rev {}", p.iter().rev().map(|c| hex(c)).collect::<Vec<_>>().join(",")));
+            t.push(format!("iter-alt {}", alt(p.iter()).into_iter().map(|c| hex(c)).collect::<Vec<_>>().join(",")));
+            t.push(format!("components-alt {}", alt(p.components()).into_iter().map(|c| hex(&c.as_ref_bytes())).collect::<Vec<_>>().join(",")));
         t.push(format!("to-unix {} {:?}", hex(p.with_unix_encoding().as_bytes()), p.with_unix_encoding_checked().map(|x| hex(x.as_bytes()))));
         t.push(format!("to-windows {} {:?}", hex(p.with_windows_encoding().as_bytes()), p.with_windows_encoding_checked().map(|x| hex(x.as_bytes()))));
         t
